@@ -3,8 +3,12 @@
 Sub-claims (DESIGN §4 C13), all evaluated on the REAL `speckit` (SpectrumAnalyzer / compute_spectrum / lpsd / compute_single_bin):
   a  sanitise    non-finite samples are treated as zeros: the analyzer's stored record IS the zero-filled record and every result
                  field equals, bit for bit, the result for the zero-filled record (same code path)
-  b  untouched   the caller's object (array, base buffer of a view, list members, Series/DataFrame) holds the same BYTES after
-                 construction and after the analysis (every order, numba and NumPy backends, full plan and single bin)
+  b  untouched   the caller's object (array, base buffer of a view, list members, masked array, Series/DataFrame) is exactly as it was after
+                 construction and after every analysis call (every order, numba and NumPy backends, full plan and single bin): the same BYTES,
+                 and the same OBJECT STATE (class Watch: dtype, shape, strides, data address, every NumPy flag, identity and flags of the `.base`
+                 chain of a view, mask / hard mask / fill value of a masked array, identity of every list element, index / columns / name / attrs /
+                 `.values` flags of a pandas object); then the caller's own next statement — an in-place update of its arrays — succeeds if the
+                 array was writeable before the call and still raises if it was read-only before
   c  layout      the same channels presented as 2xN / Nx2 (copy, transposed view, F-order, strided), list / tuple of arrays, nested lists,
                  float32 / int64 / longdouble (only when exactly representable), read-only, reversed strides, pandas objects give
                  bit-identical results; 2x2: rows are the channels (documented convention, nothing more is demanded)
@@ -16,7 +20,8 @@ Sub-claims (DESIGN §4 C13), all evaluated on the REAL `speckit` (SpectrumAnalyz
   every overlap request form and window kind, and call HISTORIES (second / third analysis on the same analyzer and on the same input array:
   bytes untouched after every call, results bit-identical), plus the two backends against each other within the kernels' rounding budget,
   (iii) on LONG records (>= 70001 samples, lengths around 2^16 and around the block constants mined from the current source, 1.1e6 samples)
-  with non-finite samples near the end.
+  with non-finite samples near the end, (iv) by the OBJECT STREAM: every presentation (finite and with non-finite samples) through all seven
+  entry forms in one call history on the same object, and masked arrays WITH masked samples (sub-claim b only).
 Correspondence: (a) the aliasing rules of the hand model `Model.heapStep` run over the GENERATED constructor op lists (Gen/Ctor.lean)
 predict whether `an.data` shares memory with the caller's array / whether the caller's buffer is written; compared with
 `np.shares_memory` / a byte comparison on the real constructor; (b) generated attribute table vs the real `__getattr__`;
@@ -129,7 +134,11 @@ RULE = ("cases = (record kind incl. zero/constant/ramp/tiny/huge, non-finite pat
         "degenerate record, saturated record}, cycling scheduler (4 built-in, fixed-length 'welch', re-listed lengths, all-structures 'mix'), overlap "
         "request (default | float | 0.0 | so high that (1-olap)L < 1), window (kaiser psll | hann | callable | default | scipy kaiser), single bin by L or "
         "by fres; distinct by all of these. Long records: N = 70001, three lengths around 2^16 / the block constants mined from the current source, and "
-        "1100003, non-finite samples in the last block / at block boundaries, single bins whose segment count crosses the kernels' chunk sizes")
+        "1100003, non-finite samples in the last block / at block boundaries, single bins whose segment count crosses the kernels' chunk sizes. "
+        "Object stream (every run): every presentation of the lists (+ C-contiguous views into larger buffers, masked arrays) x {finite, one non-finite "
+        "pattern} x a permutation of all 7 entry forms on the SAME object, backends cycling; masked arrays with masked samples (finite / NaN / Inf "
+        "underneath, hard / soft mask, 1-D / 2xN / Nx2 / list of two) through 4 entry forms; after every step the caller's object state (flags, shape, "
+        "strides, base chain, mask, element identities, pandas axes) is compared and the caller's in-place update is performed")
 
 ORDERS = [-1, 0, 1, 2]
 BACKENDS = ["auto", "numpy"]
@@ -140,10 +149,11 @@ DENS = ["Gxx", "Gyy", "Gxy", "psd", "asd", "ps", "csd", "cs", "coh", "ccoh", "Hx
 ERRS = ["Gxx_dev", "Gyy_dev", "Gxy_dev", "Hxy_dev", "coh_dev", "Gxx_error", "Gyy_error", "Gxy_error", "Hxy_mag_error",
         "Hxy_rad_error", "Hxy_deg_error", "coh_error", "XY_emp_var", "XY_emp_dev", "Gxx_emp_dev", "Gxy_emp_dev"]
 PRES_CROSS = ["2xN_C", "2xN_F", "2xN_strided", "2xN_Tview", "2xN_readonly", "2xN_rev", "Nx2_C", "Nx2_Tview", "Nx2_F", "Nx2_strided",
-              "list_arrays", "tuple_arrays", "list_lists", "list_views", "ld_2xN", "df"]
+              "list_arrays", "tuple_arrays", "list_lists", "list_views", "ld_2xN", "df", "2xN_rows_of_2d", "ma_2xN"]
 PRES_CROSS_F32 = ["f32_2xN", "f32_Nx2_Tview", "f32_list_arrays"]
 PRES_CROSS_INT = ["i64_2xN", "i64_Nx2_C", "i32_Nx2_Tview", "int_list_lists"]
-PRES_AUTO = ["1d_C", "1d_strided", "1d_rev", "1d_row_of_2d", "1d_col_of_2d", "1d_readonly", "1d_list", "1d_tuple", "1d_ld", "series"]
+PRES_AUTO = ["1d_C", "1d_strided", "1d_rev", "1d_row_of_2d", "1d_col_of_2d", "1d_readonly", "1d_list", "1d_tuple", "1d_ld", "series", "1d_slice",
+             "1d_ma"]
 PRES_AUTO_F32 = ["1d_f32"]
 PRES_AUTO_INT = ["1d_i64", "1d_int_list"]
 PATTERNS = ["none", "single", "burst", "first", "last", "first+last", "channel0", "channel1", "all", "scattered"]
@@ -194,6 +204,13 @@ def present(name: str, x: np.ndarray, y: Optional[np.ndarray]) -> Tuple[Any, Lis
         if name == "2xN_readonly":
             two.setflags(write=False)
             return two, [two]
+        if name == "2xN_rows_of_2d":                             # a C-contiguous float64 (2, N) VIEW: two adjacent rows of a larger buffer
+            big = np.full((5, N), FILL)
+            big[1:3] = two
+            return big[1:3], [big]
+        if name == "ma_2xN":                                    # masked array, explicit mask with no sample masked
+            a = np.ma.array(two, mask=np.zeros(two.shape, dtype=bool))
+            return a, [a]
         if name == "2xN_rev":
             b = np.ascontiguousarray(two[:, ::-1])
             return b[:, ::-1], [b]
@@ -274,6 +291,13 @@ def present(name: str, x: np.ndarray, y: Optional[np.ndarray]) -> Tuple[Any, Lis
             a = x.copy()
             a.setflags(write=False)
             return a, [a]
+        if name == "1d_slice":                                  # a C-contiguous float64 VIEW into the middle of a longer buffer
+            big = np.full(N + 7, FILL)
+            big[3:3 + N] = x
+            return big[3:3 + N], [big]
+        if name == "1d_ma":
+            a = np.ma.array(x.copy(), mask=np.zeros(N, dtype=bool))
+            return a, [a]
         if name == "1d_list":
             l = x.tolist()
             return l, [l]
@@ -309,6 +333,230 @@ def snapshot(roots: List[Any]) -> List[bytes]:
         else:                                   # pandas object
             out.append(r.to_numpy(copy=True).tobytes() + repr(r.shape).encode())
     return out
+
+
+# ---------------------------------------------------------------- "left untouched" = the caller's OBJECT is exactly as it was
+# The bytes are one aspect of the caller's object.  The others a caller can observe — and trip over in its next statement — are recorded before the
+# call and compared (exactly: they are identities, integers, booleans, type names) after EVERY call of a case / step of a call history:
+#   ndarray       type, dtype (incl. byte order), shape, strides, address of the first element, every flag (WRITEABLE, C_CONTIGUOUS, F_CONTIGUOUS,
+#                 ALIGNED, OWNDATA, WRITEBACKIFCOPY), and for a view the chain of `.base` objects: identity, type, shape, strides, dtype, flags
+#   masked array  additionally the mask (nomask or not, identity, bytes, WRITEABLE), hard / shared mask state, fill value
+#   list / tuple  the container type, its length and the IDENTITY of every element (recursively for nested containers; ndarray members as above)
+#   pandas        type, shape, dtypes, name / attrs, identity + values + names of the index (and columns), every flag / dtype / shape / strides of `.values`
+# and then the caller's own next statement is executed: an in-place update `a[...] += 0` of every array the caller owns (the object handed to the
+# library, its base buffers, the members of a list) must succeed if that array was writeable BEFORE the call and must still raise if it was read-only
+# before; for pandas objects `obj.iloc[0] = obj.iloc[0]` must succeed.  The update is undone (-0.0 + 0 = +0.0) and the whole state compared once more.
+ND_FLAGS = ("WRITEABLE", "C_CONTIGUOUS", "F_CONTIGUOUS", "ALIGNED", "OWNDATA", "WRITEBACKIFCOPY")
+FOLLOW_WHOLE = 1 << 17            # arrays up to this many elements are updated as a whole, longer ones at both ends (the flag is per array object)
+
+
+def nd_state(a: np.ndarray, pre: str, st: Dict[str, Any], pointers: bool = True) -> None:
+    st[pre + "type"] = type(a).__module__ + "." + type(a).__name__
+    st[pre + "dtype"] = (repr(a.dtype), a.dtype.str)
+    st[pre + "shape"] = tuple(int(v) for v in a.shape)
+    st[pre + "strides"] = tuple(int(v) for v in a.strides)
+    for n in ND_FLAGS:
+        st[pre + "flags." + n] = bool(a.flags[n])
+    if not pointers:
+        return
+    st[pre + "data_address"] = int(a.__array_interface__["data"][0])
+    b, k = a.base, 1
+    st[pre + "base"] = "None" if b is None else f"object {id(b):#x}"
+    while b is not None and k <= 8:
+        p = f"{pre}base^{k}."
+        st[p + "type"] = type(b).__module__ + "." + type(b).__name__
+        if not isinstance(b, np.ndarray):
+            break
+        st[p + "dtype"] = (repr(b.dtype), b.dtype.str)
+        st[p + "shape"] = tuple(int(v) for v in b.shape)
+        st[p + "strides"] = tuple(int(v) for v in b.strides)
+        st[p + "data_address"] = int(b.__array_interface__["data"][0])
+        for n in ND_FLAGS:
+            st[p + "flags." + n] = bool(b.flags[n])
+        st[p + "base"] = "None" if b.base is None else f"object {id(b.base):#x}"
+        b, k = b.base, k + 1
+    if isinstance(a, np.ma.MaskedArray):
+        m = a._mask
+        st[pre + "mask.is_nomask"] = m is np.ma.nomask
+        if m is not np.ma.nomask:
+            st[pre + "mask.object"] = f"object {id(m):#x}"
+            st[pre + "mask.bytes"] = np.asarray(m).tobytes()
+            st[pre + "mask.shape"] = tuple(np.shape(m))
+            st[pre + "mask.flags.WRITEABLE"] = bool(np.asarray(m).flags.writeable)
+        st[pre + "mask.hardmask"] = bool(a._hardmask)
+        st[pre + "mask.sharedmask"] = bool(a._sharedmask)
+        st[pre + "fill_value"] = repr(a.fill_value)
+
+
+def _is_pandas(o: Any) -> bool:
+    return type(o).__module__.split(".")[0] == "pandas"
+
+
+def obj_state(o: Any, pre: str, st: Dict[str, Any], keep: List[Any], arrays: List[Tuple[str, np.ndarray]], depth: int = 0) -> None:
+    """the observable state of one caller's object into `st` (aspect -> exactly comparable value); `keep` holds every element object so that an
+    identity recorded as id() cannot be reused; `arrays` collects the (label, ndarray) the caller owns (for the follow-up)"""
+    if isinstance(o, np.ndarray):
+        if any(o is a for _, a in arrays):
+            return
+        arrays.append((pre.rstrip(".") or "object", o))
+        nd_state(o, pre, st)
+        if isinstance(o, np.ma.MaskedArray):
+            st[pre + "bytes"] = np.ma.getdata(o).tobytes()
+        else:
+            st[pre + "bytes"] = o.tobytes()
+    elif isinstance(o, (list, tuple)):
+        st[pre + "type"] = type(o).__name__
+        st[pre + "len"] = len(o)
+        elems = tuple(o)
+        keep.append(elems)
+        st[pre + "elements(identity)"] = tuple(id(e) for e in elems)
+        if depth < 3:
+            for i, e in enumerate(elems):
+                if isinstance(e, (list, tuple, np.ndarray)):
+                    obj_state(e, f"{pre}[{i}].", st, keep, arrays, depth + 1)
+    elif _is_pandas(o):
+        st[pre + "type"] = type(o).__module__ + "." + type(o).__name__
+        st[pre + "shape"] = tuple(int(v) for v in o.shape)
+        st[pre + "dtypes"] = repr(getattr(o, "dtypes", None)) if o.ndim == 2 else repr(o.dtype)
+        st[pre + "attrs"] = repr(dict(o.attrs))
+        if o.ndim == 1:
+            st[pre + "name"] = repr(o.name)
+        for axn in (("index", "columns") if o.ndim == 2 else ("index",)):
+            ax = getattr(o, axn)
+            keep.append(ax)
+            st[pre + axn + ".object"] = f"object {id(ax):#x}"
+            st[pre + axn + ".type"] = type(ax).__name__
+            st[pre + axn + ".values"] = repr(ax.tolist()) if len(ax) <= 4096 else (len(ax), repr(ax[:8].tolist()), repr(ax[-8:].tolist()))
+            st[pre + axn + ".names"] = repr(list(ax.names))
+        nd_state(np.asarray(o.values), pre + "values.", st, pointers=False)
+        st[pre + "bytes"] = o.to_numpy(copy=True).tobytes()
+    else:
+        st[pre + "type"] = type(o).__name__
+        st[pre + "repr"] = repr(o)[:200]
+
+
+class Watch:
+    """the caller's object `obj` (what is handed to the library) and the `roots` (buffers underneath it) at the time of construction"""
+
+    def __init__(self, obj: Any, roots: List[Any]):
+        self.obj, self.roots = obj, roots
+        self.snap0 = snapshot(roots)
+        self.keep: List[Any] = []
+        self.arrays: List[Tuple[str, np.ndarray]] = []
+        self.st0 = self.state(self.arrays)
+
+    def state(self, arrays: Optional[List[Tuple[str, np.ndarray]]] = None) -> Dict[str, Any]:
+        st: Dict[str, Any] = {}
+        arrays = [] if arrays is None else arrays
+        obj_state(self.obj, "object.", st, self.keep, arrays)
+        for i, r in enumerate(self.roots):
+            if r is not self.obj:
+                obj_state(r, f"root[{i}].", st, self.keep, arrays)
+        return st
+
+    def compare(self, own_pandas_update: bool = False) -> Optional[Tuple[str, str]]:
+        """None if the caller's object is as it was, else (aspect, description); the bytes of the roots first (the description names the element).
+        `own_pandas_update`: the harness itself has just assigned through `.iloc`, which lets pandas (copy-on-write) rebuild the axes objects"""
+        snap1 = snapshot(self.roots)
+        if snap1 != self.snap0:
+            return "bytes", "the caller's data was modified" + changed_detail(self.roots, self.snap0, snap1)
+        st1 = self.state()
+        for k, v in self.st0.items():
+            if own_pandas_update and (k.endswith("index.object") or k.endswith("columns.object")):
+                continue
+            if k not in st1:
+                return k.split(".", 1)[-1], f"the caller's object was modified: {k} was {_short(v)} and no longer exists"
+            w = st1[k]
+            if type(v) is not type(w) or v != w:
+                if k.endswith("bytes"):
+                    return "bytes", f"the caller's data was modified ({k} differ)"
+                if k.endswith("elements(identity)"):
+                    j = [i for i, (p, q) in enumerate(zip(v, w)) if p != q]
+                    d = f"element {j[0]} is now a different object ({len(j)} replaced)" if j else f"length {len(v)} -> {len(w)}"
+                    return "elements", f"the caller's object was modified: {k}: {d}"
+                return _aspect(k), f"the caller's object was modified: {k} was {_short(v)} and is now {_short(w)}"
+        for k in st1:
+            if k not in self.st0:
+                return _aspect(k), f"the caller's object was modified: {k} = {_short(st1[k])} did not exist before the call"
+        return None
+
+    def follow_up(self) -> Optional[Tuple[str, str]]:
+        """the caller's next statement: an in-place update of its own arrays.  None if each behaves as it would have without the call"""
+        for lab, a in self.arrays:
+            was_w = bool(self.st0.get(lab + ".flags.WRITEABLE", True))
+            tgt = np.ma.getdata(a) if isinstance(a, np.ma.MaskedArray) else a
+            if tgt.size == 0 or tgt.dtype.kind not in "fiu":
+                continue
+            if tgt.size <= FOLLOW_WHOLE or tgt.ndim == 0:
+                parts = [tgt]
+            elif tgt.shape[-1] >= 2048:
+                parts = [tgt[..., :1024], tgt[..., -1024:]]
+            else:
+                parts = [tgt[:1024], tgt[-1024:]]
+            for v in parts:
+                saved = v.copy()
+                try:
+                    v[...] += v.dtype.type(0)
+                    raised = None
+                except Exception as ex:
+                    raised = ex
+                if raised is None:
+                    try:
+                        v[...] = saved
+                    except Exception as ex:
+                        return "follow-up", f"the caller's own `a[...] = saved` on its array {lab} raised {ex!r} after the call"
+                if was_w and raised is not None:
+                    return "follow-up", (f"the caller's own in-place update `a[...] += 0` of its array {lab} (writeable before the call) raised {raised!r} "
+                                         f"after the call")
+                if not was_w and raised is None:
+                    return "follow-up", (f"the caller's array {lab} was read-only before the call (an in-place update raises ValueError), after the call "
+                                         f"the in-place update `a[...] += 0` went through")
+        pandas_updated = False
+        for o in [self.obj] + [r for r in self.roots if r is not self.obj]:
+            if _is_pandas(o) and o.shape[0] > 0:
+                pandas_updated = True
+                try:
+                    if o.ndim == 1:
+                        o.iloc[0] = o.iloc[0]
+                    else:
+                        o.iloc[0, 0] = o.iloc[0, 0]
+                except Exception as ex:
+                    return "follow-up", f"the caller's own `obj.iloc[0] = obj.iloc[0]` on its {type(o).__name__} raised {ex!r} after the call"
+        c = self.compare(own_pandas_update=pandas_updated)
+        if c is not None:
+            return "follow-up-state", "after the caller's own in-place update (+ 0, undone): " + c[1]
+        if pandas_updated:
+            self.st0 = self.state()               # the caller's own assignment may have replaced the axes objects: they are the reference from now on
+        return None
+
+    def verdict(self, follow: bool = True) -> Optional[Tuple[str, str]]:
+        c = self.compare()
+        if c is None and follow:
+            c = self.follow_up()
+        return c
+
+
+def _short(v: Any) -> str:
+    s = repr(v)
+    return s if len(s) <= 120 else s[:117] + "..."
+
+
+def _aspect(k: str) -> str:
+    """signature key of an aspect: without the position of the object (object. / root[i]. / [i].)"""
+    return re.sub(r"^(object|root\[\d+\])\.(\[\d+\]\.)*", "", k)
+
+
+def untouched(P: C.Part, W: Watch, where: str, sig: Dict[str, Any], rp: Dict[str, Any], follow: bool = True) -> bool:
+    """sub-claim b after one call: True if the caller's object is exactly as it was (and its next in-place update behaves as before)"""
+    c = W.verdict(follow)
+    if c is None:
+        return True
+    aspect, text = c
+    s = dict(sig, subclaim="untouched")
+    if aspect != "bytes":
+        s["aspect"] = aspect
+    P.violations.append(C.Violation(what=f"{where}: {text}", signature=s, replay=rp))
+    return False
 
 
 def inject(rng: np.random.Generator, x: np.ndarray, y: Optional[np.ndarray], pattern: str) -> None:
@@ -478,11 +726,12 @@ def eval_case(P: C.Part, case: Dict[str, Any], ref_cache: Optional[Dict[Any, Any
     except ImportError:
         P.hit("pandas-unavailable")
         return
-    snap0 = snapshot(roots)
+    W = Watch(obj, roots)
     try:
         an, res = run_entry(obj, fs, entry, backend, opts, freq, L)
     except Exception as ex:
-        changed = snapshot(roots) != snap0
+        touched = W.verdict()
+        changed = touched is not None
         # a plan / option error that a plain finite noise record of the same size provokes too is not about the input's values or layout
         ctrl = np.random.default_rng(N).standard_normal((1 if y is None else 2, N))
         try:
@@ -493,22 +742,11 @@ def eval_case(P: C.Part, case: Dict[str, Any], ref_cache: Optional[Dict[Any, Any
         if ctrl_raises and not changed:
             P.hit("options-rejected-for-any-record(" + type(ex).__name__ + ")")
             return
-        P.violations.append(C.Violation(what=f"{where} raised {ex!r}" + (" AND modified the caller's data" if changed else ""),
+        P.violations.append(C.Violation(what=f"{where} raised {ex!r}" + (f" AND {touched[1]}" if changed else ""),
                                         signature=dict(sig, subclaim="untouched" if changed else "raises"), replay=rp))
         return
-    # b. untouched (after construction AND analysis)
-    snap1 = snapshot(roots)
-    if snap1 != snap0:
-        k = [i for i, (u, v) in enumerate(zip(snap0, snap1)) if u != v][0]
-        r = roots[k]
-        detail = ""
-        if isinstance(r, np.ndarray) and r.dtype.kind == "f" and r.dtype.itemsize in (4, 8):
-            old = np.frombuffer(snap0[k][:r.nbytes], dtype=r.dtype)
-            new = np.ascontiguousarray(r).ravel()
-            ch = np.nonzero(old.view(f"u{r.dtype.itemsize}") != new.view(f"u{r.dtype.itemsize}"))[0]
-            if ch.size:
-                detail = f": flat element {int(ch[0])} was {old[int(ch[0])]!r} and is now {new[int(ch[0])]!r} ({ch.size} element(s) changed)"
-        P.violations.append(C.Violation(what=f"{where}: the caller's data was modified{detail}", signature=dict(sig, subclaim="untouched"), replay=rp))
+    # b. untouched (after construction AND analysis): bytes, then every other aspect of the caller's object, then the caller's own in-place update
+    if not untouched(P, W, where, sig, rp):
         return
     # a./c. the analyzer's stored record is the zero-filled record in canonical layout
     if an is not None:
@@ -733,7 +971,7 @@ def two_by_two(ctx, P: C.Part) -> None:
             P.cases += 1
             P.hit("2x2")
             P.nontrivial.add(("2x2", nm, k % 2))
-            snap0 = snapshot([obj])
+            W = Watch(obj, [obj])
             rp = {"two_by_two": {"m": hexs(m), "present": nm}}
             sig = {"present": nm, "mode": "cross", "pattern": "single" if k % 2 else "none"}
             try:
@@ -744,8 +982,8 @@ def two_by_two(ctx, P: C.Part) -> None:
                 P.violations.append(C.Violation(what=f"SpectrumAnalyzer({nm}) raised {ex!r}", signature=dict(sig, subclaim="raises"), replay=rp))
                 continue
             z = zero_fill(m)
-            if snapshot([obj]) != snap0:
-                P.violations.append(C.Violation(what=f"SpectrumAnalyzer({nm}): the caller's 2x2 data was modified", signature=dict(sig, subclaim="untouched"), replay=rp))
+            if not untouched(P, W, f"SpectrumAnalyzer({nm}) [2x2]", sig, rp):
+                pass
             elif not (an.iscsd and np.asarray(an.x1).tobytes() == z[0].tobytes() and np.asarray(an.x2).tobytes() == z[1].tobytes()):
                 P.violations.append(C.Violation(what=f"SpectrumAnalyzer({nm}): channels are {np.asarray(an.x1).tolist()}, {np.asarray(an.x2).tolist()}, "
                                                      f"expected the (zero-filled) rows {z.tolist()}", signature=dict(sig, subclaim="layout", stage="2x2"), replay=rp))
@@ -767,17 +1005,15 @@ def tiny_sizes(ctx, P: C.Part) -> None:
                     P.cases += 1
                     P.hit(f"tinyN.{N}")
                     obj, roots = present(pres, x, y)
-                    snap0 = snapshot(roots)
+                    W = Watch(obj, roots)
                     outcome = "ok"
                     try:
                         run_entry(obj, 1.0, "analyzer.compute", "auto", {"order": 0, "Jdes": 4, "Kdes": 1}, 0.0, max(N, 1))
                     except Exception as ex:
                         outcome = type(ex).__name__
                     P.hit(f"tinyN.outcome.{outcome}")
-                    if snapshot(roots) != snap0:
-                        P.violations.append(C.Violation(what=f"analysis of a length-{N} {pres} record modified the caller's data",
-                                                        signature={"subclaim": "untouched", "present": pres, "tinyN": N},
-                                                        replay={"case": make_case("tiny", x, y, None, pres, pat, 1.0, {"order": 0, "Jdes": 4, "Kdes": 1}, "auto", "analyzer.compute", 0.0, max(N, 1))}))
+                    untouched(P, W, f"analysis of a length-{N} {pres} record (outcome: {outcome})", {"present": pres, "tinyN": N},
+                              {"case": make_case("tiny", x, y, None, pres, pat, 1.0, {"order": 0, "Jdes": 4, "Kdes": 1}, "auto", "analyzer.compute", 0.0, max(N, 1))})
 
 
 def corpus(ctx, P: C.Part) -> None:
@@ -799,6 +1035,12 @@ def corpus(ctx, P: C.Part) -> None:
         for entry in ("analyzer.compute", "compute_spectrum"):
             c = make_case("corpus-D3", x, y, "d3c", pres, "scattered", 1.0, opts, "numpy" if pres == "Nx2_F" else "auto", entry, 0.125, 32)
             eval_case(P, c, cache)
+    # seeded change C13g: `self.data.setflags(write=False)` on the stored record froze the CALLER's array whenever the constructor keeps the caller's
+    # own object (finite C-contiguous float64 1-D / 2xN array or view): bytes unchanged, the caller's next `x -= x.mean()` raised
+    xf, yf = zero_fill(x) + 3.0, zero_fill(y) - 1.5
+    for pres, yy in (("1d_C", None), ("1d_row_of_2d", None), ("1d_slice", None), ("series", None), ("2xN_C", yf), ("2xN_rows_of_2d", yf)):
+        for entry in ("analyzer.compute", "compute_spectrum", "compute_single_bin"):
+            eval_case(P, make_case("corpus-C13g", xf, yy, "g" + str(yy is None), pres, "none", 1.0, opts, "auto", entry, 0.125, 32), cache)
 
 
 def range_probe(ctx, P: C.Part) -> None:
@@ -862,8 +1104,8 @@ SW_SCHEDS = ["lpsd", "welch", "ltf", "relist", "vectorized_ltf", "new_ltf"]
 SW_OLAPS = ["default", "float", "zero", "high"]
 SW_WINS = ["kaiser", "hashwin", "hann", "default", "spkaiser"]
 SW_PSLL = [60.0, 200.0, 100.0, 137.5, 45.0]
-ALIAS_CROSS = ["2xN_C", "Nx2_F", "Nx2_Tview", "2xN_readonly"]   # the constructor's (2, N) float64 C-contiguous view IS the caller's buffer
-ALIAS_AUTO = ["1d_C", "1d_row_of_2d", "1d_readonly"]
+ALIAS_CROSS = ["2xN_C", "Nx2_F", "Nx2_Tview", "2xN_readonly", "2xN_rows_of_2d"]   # the constructor's (2, N) float64 C-contiguous view IS the caller's buffer
+ALIAS_AUTO = ["1d_C", "1d_row_of_2d", "1d_readonly", "1d_slice"]
 SW_SEQS = [
     [["A", "compute"], ["A", "compute"], ["A", "compute"]],
     [["A", "compute"], ["A", "single"], ["A", "compute"], ["A", "single_fres"], ["A", "single"]],
@@ -1089,7 +1331,7 @@ def eval_seq(P: C.Part, case: Dict[str, Any], ref_cache: Optional[Dict[Any, Any]
     except ImportError:
         P.hit("pandas-unavailable")
         return None
-    snap0 = snapshot(roots)
+    W = Watch(obj, roots)
     kw = real_opts(dict(opts, backend=backend))
     ans: Dict[str, Any] = {}
     first: Dict[str, Any] = {}
@@ -1116,7 +1358,8 @@ def eval_seq(P: C.Part, case: Dict[str, Any], ref_cache: Optional[Dict[Any, Any]
                     an = ans[slot]
                     res = an.compute() if entry == "compute" else (an.compute_single_bin(freq, L=L) if entry == "single" else an.compute_single_bin(freq, fres=fs / L))
         except Exception as ex:
-            changed = snapshot(roots) != snap0
+            touched = W.verdict()
+            changed = touched is not None
             ctrl_raises = False
             if kind not in first:        # never succeeded before: an option / plan error that a plain noise record of this size provokes too?
                 ctrl = np.random.default_rng(N).standard_normal((1 if y is None else 2, N))
@@ -1127,14 +1370,12 @@ def eval_seq(P: C.Part, case: Dict[str, Any], ref_cache: Optional[Dict[Any, Any]
             if ctrl_raises and not changed:
                 P.hit("options-rejected-for-any-record(" + type(ex).__name__ + ")")
                 return None
-            P.violations.append(C.Violation(what=f"{where} raised {ex!r}" + (" AND modified the caller's data" if changed else ""),
+            P.violations.append(C.Violation(what=f"{where} raised {ex!r}" + (f" AND {touched[1]}" if changed else ""),
                                             signature=dict(sig, subclaim="untouched" if changed else "raises"), replay=rp))
             return None
-        # b. untouched after this step
-        snap1 = snapshot(roots)
-        if snap1 != snap0:
-            P.violations.append(C.Violation(what=f"{where}: the caller's data was modified{changed_detail(roots, snap0, snap1)}",
-                                            signature=dict(sig, subclaim="untouched"), replay=rp))
+        # b. untouched after this step: bytes, every other aspect of the caller's object, and the caller's own in-place update (which a later step
+        #    of the history then follows: analyse -> update in place -> analyse again)
+        if not untouched(P, W, where, sig, rp):
             return None
         # a./c. every analyzer built so far still stores the zero-filled record
         for sl, an in ans.items():
@@ -1455,6 +1696,115 @@ def replay_agreement(P: C.Part, a: Dict[str, Any]) -> None:
             except Exception:
                 pass
     backend_agreement(P, "replayed", x, y, float(a["fs"]), a["opts"], refs, {"agreement": a})
+
+
+# ---------------------------------------------------------------- the caller's object: every presentation x every entry point, on every run
+# Whether the library keeps the caller's own array object (and can therefore change its flags / shape / contents) or works on a copy depends on the
+# representation: C-contiguous float64 1-D / 2xN arrays and views without NaN/Inf are kept, everything else is copied; with NaN/Inf a sanitised copy
+# is made.  The streams above visit the presentations by cycling; this one hands EVERY presentation — finite and with non-finite samples — to EVERY
+# entry form in one call history on the same object (seven calls in a seed-dependent order, backends cycling) and applies eval_seq's predicates
+# after every step: the caller's object exactly as it was (Watch), the caller's own in-place update works, results bit-identical to the plain record's.
+OBJ_STEPS = [["A", "compute"], ["A", "single"], ["A", "single_fres"], ["M", "compute_spectrum"], ["M", "lpsd"], ["M", "compute_single_bin"],
+             ["M", "compute_single_bin_fres"]]
+
+
+def object_stream(ctx, P: C.Part, rounds: int) -> None:
+    rng = ctx.rng
+    cyc = Cycler(rng)
+    for rnd in range(rounds):
+        for cross in (True, False):
+            mode = "cross" if cross else "auto"
+            N = int(cyc("N", [48, 60, 37, 96, 41]))
+            fs = float(cyc("fs", [1.0, 1000.0, 0.37]))
+            x, y = sweep_channels(rng, N, "int", cross)              # small integers: every container / dtype of the lists holds them exactly
+            xh, yh = x.copy(), None if y is None else y.copy()
+            pattern = str(cyc("pattern", PATTERNS[1:]))
+            inject(rng, xh, yh, pattern)
+            order = int(cyc("order", ORDERS))
+            divs = [d for d in range(6, N // 2 + 1) if N % d == 0]
+            L = int(rng.choice(divs)) if divs else N // 2
+            freq = fs * int(rng.integers(1, L // 2 + 1)) / L
+            opts = {"order": order, "Jdes": int(rng.integers(4, 9)), "Kdes": 2, "Lmin": 1, "scheduler": cyc("sched", ["ltf", "lpsd", "mix", "new_ltf"]),
+                    "win": cyc("win", ["hann", "kaiser", "hashwin"]), "psll": 100.0, "olap": cyc("olap", ["default", 0.0, 0.5])}
+            cache: Dict[Any, Any] = {}
+            holes_ok = (PRES_CROSS + PRES_CROSS_F32) if cross else (PRES_AUTO + PRES_AUTO_F32)
+            for pres in holes_ok + (PRES_CROSS_INT if cross else PRES_AUTO_INT):
+                for pat, (u, v) in (("none", (x, y)), (pattern, (xh, yh))):
+                    if pat != "none" and pres not in holes_ok:
+                        continue
+                    if ctx.time_left() < 25 or len(P.violations) >= MAX_VIOL:
+                        P.notes.append("object stream: stopped early (time budget or violation cap)")
+                        return
+                    seq = [OBJ_STEPS[i] for i in rng.permutation(len(OBJ_STEPS))]
+                    case = {"stream": "object", "x": hexs(u), "y": hexs(v), "x_id": (rnd, mode, pat), "present": pres, "pattern": pat, "fs": fs, "opts": opts,
+                            "olap_form": str(opts["olap"]), "backend": cyc("backend", ["auto", "numpy", "numba"]), "seq": seq, "freq": float(freq), "L": int(L),
+                            "role": "object"}
+                    eval_seq(P, case, cache)
+            if rnd == 0:
+                P.sample({"op": "object-stream", "mode": mode, "N": N, "pattern": pattern, "opts": opts, "single": [freq, L],
+                          "presentations": len(holes_ok) + len(PRES_CROSS_INT if cross else PRES_AUTO_INT)})
+
+
+def masked_case(P: C.Part, m: Dict[str, Any]) -> None:
+    """a masked array WITH masked samples (possibly NaN underneath, as np.ma.masked_invalid leaves them): what the analysis makes of the masked samples is not
+    stated by the property, so nothing is demanded of the results — only sub-claim b: whatever each call does (a clear error included), the caller's
+    masked array (data, mask, mask identity, hard / shared mask state, fill value, flags) is exactly as it was and can be updated in place"""
+    x, y = unhex(m["x"]), unhex(m["y"])
+    N = len(x)
+    mk = np.array(m["mask"], dtype=bool).reshape((1 if y is None else 2), N)
+    form = m["form"]
+    if y is None:
+        obj: Any = np.ma.array(x.copy(), mask=mk[0].copy(), hard_mask=bool(m["hard"]))
+        roots = [obj]
+    elif form == "2xN":
+        obj = np.ma.array(np.array([x, y]), mask=mk.copy(), hard_mask=bool(m["hard"]))
+        roots = [obj]
+    elif form == "Nx2":
+        obj = np.ma.array(np.ascontiguousarray(np.array([x, y]).T), mask=np.ascontiguousarray(mk.T), hard_mask=bool(m["hard"]))
+        roots = [obj]
+    else:
+        obj = [np.ma.array(x.copy(), mask=mk[0].copy(), hard_mask=bool(m["hard"])), np.ma.array(y.copy(), mask=mk[1].copy())]
+        roots = list(obj)
+    if m.get("fill") is not None:
+        for r in roots:
+            r.fill_value = float(m["fill"])
+    W = Watch(obj, roots)
+    sig0 = {"present": "masked_" + (form if y is not None else "1d"), "mode": "auto" if y is None else "cross", "pattern": m["pattern"], "backend": m["backend"],
+            "order": int(m["opts"].get("order", 0))}
+    for si, entry in enumerate(m["entries"]):
+        P.cases += 1
+        P.hit("masked.entry." + entry)
+        P.nontrivial.add(("masked", sig0["present"], m["pattern"], entry, bool(m["hard"])))
+        outcome = "ok"
+        try:
+            run_entry(obj, float(m["fs"]), entry, m["backend"], m["opts"], float(m["freq"]), int(m["L"]))
+        except Exception as ex:
+            outcome = "raised " + type(ex).__name__
+        P.hit("masked.outcome." + outcome)
+        if not untouched(P, W, f"step {si}: {entry}({sig0['present']}, N={N}, {int(mk.sum())} masked sample(s), data under the mask: {m['pattern']}; {outcome})",
+                         dict(sig0, entry=entry, step=si), {"masked": m}):
+            return
+
+
+def masked_stream(ctx, P: C.Part, n: int) -> None:
+    rng = ctx.rng
+    cyc = Cycler(rng)
+    for i in range(n):
+        cross = bool(i % 2)
+        N = int(cyc("N", [40, 33, 64]))
+        x, y = sweep_channels(rng, N, "real", cross)
+        mk = rng.random((2 if cross else 1, N)) < 0.2
+        mk[0, 0] = True
+        pattern = str(cyc("under", ["finite", "nan", "inf"]))
+        if pattern != "finite":
+            for c, row in zip([x, y] if cross else [x], mk):
+                c[row] = np.nan if pattern == "nan" else np.inf
+        L = N // 2
+        m = {"x": hexs(x), "y": hexs(y), "mask": mk.astype(int).ravel().tolist(), "form": cyc("form", ["2xN", "Nx2", "list"]) if cross else "1d",
+             "hard": bool(cyc("hard", [False, True])), "fill": cyc("fill", [None, -1.0]), "pattern": pattern, "fs": 1.0,
+             "opts": {"order": int(cyc("order", ORDERS)), "Jdes": 5, "Kdes": 2, "win": "hann"}, "backend": cyc("backend", ["auto", "numpy"]),
+             "entries": [ENTRIES_ALL[j] for j in rng.permutation(len(ENTRIES_ALL))[:4]], "freq": 2.0 / L, "L": L}
+        masked_case(P, m)
 
 
 # ---------------------------------------------------------------- long records (size thresholds)
@@ -2147,6 +2497,8 @@ def oracle(ctx, intensive: bool = False, hints: List[Dict[str, Any]] = ()) -> C.
     corpus(ctx, P)
     two_by_two(ctx, P)
     tiny_sizes(ctx, P)
+    object_stream(ctx, P, ctx.scale(1, 4) * mult)
+    masked_stream(ctx, P, ctx.scale(8, 48) * mult)
     option_sweep(ctx, P, ctx.scale(2, 8) * mult)
     long_stream(ctx, P, intensive)
     synthetic_finite(ctx, P, ctx.scale(400, 4000) * mult)
@@ -2179,6 +2531,8 @@ def replay(ctx, data) -> C.Part:
             eval_seq(P, r["seq_case"], None)
         elif "agreement" in r:
             replay_agreement(P, r["agreement"])
+        elif "masked" in r:
+            masked_case(P, r["masked"])
         elif "synthetic" in r:
             s = r["synthetic"]
             bins = []
